@@ -32,7 +32,7 @@ def next_byte_token(model, sect, unit, idx):
     return None
 
 
-def expected_edges(model):
+def expected_edges(model, entry_toks=None):
     """-> list of edges (src_tok_id, type, conditional, direct, target) with
     target one of ('tok', tok_id)  - the byte token at the target position,
                   ('end', sect)    - position at the very end of a section,
@@ -65,8 +65,12 @@ def expected_edges(model):
                 edges.append((t.id, typ, k == "jcc", True, tgt))
                 if k == "call" and tgt[0] == "tok":
                     f = tok_func(model, tgt[1])
+                    # a call 'targets the function' when it goes to one of
+                    # its entries; a call to another block of the function
+                    # may or may not be given return edges
+                    required = entry_toks is None or tgt[1] in entry_toks
                     if f is not None and nxt_code:
-                        calls_by_func.setdefault(f, []).append(nxt.id)
+                        calls_by_func.setdefault(f, []).append((nxt.id, required))
                     elif f is not None:
                         calls_by_func.setdefault(f, [])
             elif k == "ijmp":
@@ -77,11 +81,14 @@ def expected_edges(model):
                 rets.append(t)
     for t in rets:
         sites = calls_by_func.get(t.func) if t.func is not None else None
-        if sites:
-            for s in sorted(set(sites)):
-                edges.append((t.id, "Return", False, True, ("tok", s)))
-        else:
-            edges.append((t.id, "Return", False, True, ("anon",)))
+        req = sorted({s for s, r in sites or [] if r})
+        opt = sorted({s for s, r in sites or [] if not r} - set(req))
+        for s in req:
+            edges.append((t.id, "Return", False, True, ("tok", s)))
+        for s in opt:
+            edges.append((t.id, "Return?", False, True, ("tok", s)))
+        if not req:
+            edges.append((t.id, "Return?" if opt else "Return", False, True, ("anon",)))
     return edges
 
 
